@@ -454,7 +454,7 @@ def plan(tier, seed):
         specs += [{"kind": "own", "files": [f]} for f in QUICK_FILES + ["1ehz-assembly-1.cif"]]
     else:
         files = [f for f in corpus.SMALL + corpus.MEDIUM + ["4qln.cif", "6g90_1.cif"] if f != "1gid.cif.gz"]
-        specs = [{"kind": "lists", "files": files, "examples": 1300, "seed": seed * 1000 + k} for k in range(16)]
+        specs = [{"kind": "lists", "files": files, "examples": 3000, "seed": seed * 1000 + k} for k in range(16)]
         specs += [{"kind": "own", "files": [f]} for f in corpus.all_files()]
     return specs
 
